@@ -1784,6 +1784,11 @@ int ov_pcm_seek(OggVorbis_File *vf,ogg_int64_t pos){
       ogg_int64_t target=(pos-vf->pcm_offset)>>hs;
       long samples=vorbis_synthesis_pcmout(&vf->vd,NULL);
 
+      /* at half rate, a decode position of the other parity (an odd
+         page or link boundary) leaves less than one output sample to
+         discard; nothing more can be done */
+      if(target<=0)break;
+
       if(samples>target)samples=target;
       vorbis_synthesis_read(&vf->vd,samples);
       vf->pcm_offset+=samples<<hs;
